@@ -1,0 +1,318 @@
+//go:build verif
+
+package kafka
+
+import (
+	"encoding/binary"
+	"errors"
+	"io"
+	"net"
+	"sync/atomic"
+	"time"
+)
+
+// Byte-level coordinator path for the /verif harness (build tag `verif` only).
+//
+// With VerifSetGroupWire(true) the mock coordinator injected through ConsumerGroupConfig.connect still hands every
+// call to the harness handler (schedule control, scripted answer), but the scripted answer is no longer returned as a
+// Go struct: it is written as a Kafka response frame (encoders below, straight from the protocol layouts, independent
+// of the library's own writeTo methods) by a peer goroutine on a net.Pipe, and the call goes through the library's real
+// timeoutCoordinator / *Conn: request encoding, correlation, response DECODING (findcoordinator.go, joingroup.go,
+// syncgroup.go, heartbeat.go, leavegroup.go, offsetfetch.go, offsetcommit.go readFrom) and Conn's error-code handling
+// are the code under test.  Error codes are placed in the response's own error field(s); for OffsetCommit/OffsetFetch
+// in the per-partition fields (of the LAST partition when VerifCoordReply.ErrLast is set, else of every partition).
+// A non-kafka error closes the connection instead of answering.  readPartitions stays at the interface level.
+
+var verifGroupWire int32
+
+// VerifSetGroupWire switches the byte-level path on or off for ConsumerGroupConfigs validated afterwards.
+func VerifSetGroupWire(on bool) {
+	v := int32(0)
+	if on {
+		v = 1
+	}
+	atomic.StoreInt32(&verifGroupWire, v)
+}
+
+type verifWireCoordinator struct {
+	verifMockCoordinator
+	tc   *timeoutCoordinator
+	srv  net.Conn
+	next map[int16]chan []byte // per api key (calls of different goroutines share the connection): body of the next response; nil = drop the connection
+	dead int32       // the connection was dropped: later calls are journalled as failed without being answered
+}
+
+func newVerifWireCoordinator(id int, h VerifCoordHandler, config *ConsumerGroupConfig) *verifWireCoordinator {
+	cli, srv := net.Pipe()
+	w := &verifWireCoordinator{verifMockCoordinator: verifMockCoordinator{id: id, h: h}, srv: srv, next: map[int16]chan []byte{}}
+	for _, k := range []int16{8, 9, 10, 11, 12, 13, 14} {
+		w.next[k] = make(chan []byte, 1)
+	}
+	w.tc = &timeoutCoordinator{conn: NewConn(cli, "", 0), timeout: 5 * time.Second, sessionTimeout: 5 * time.Second, rebalanceTimeout: 5 * time.Second}
+	go w.serve()
+	return w
+}
+
+type verifW struct{ b []byte }
+
+func (w *verifW) i16(v int16) { w.b = binary.BigEndian.AppendUint16(w.b, uint16(v)) }
+func (w *verifW) i32(v int32) { w.b = binary.BigEndian.AppendUint32(w.b, uint32(v)) }
+func (w *verifW) i64(v int64) { w.b = binary.BigEndian.AppendUint64(w.b, uint64(v)) }
+func (w *verifW) str(s string) {
+	w.i16(int16(len(s)))
+	w.b = append(w.b, s...)
+}
+func (w *verifW) bytes(p []byte) {
+	w.i32(int32(len(p)))
+	w.b = append(w.b, p...)
+}
+
+// serve answers ApiVersions itself and every other request with the body queued by the calling method.
+func (w *verifWireCoordinator) serve() {
+	defer w.srv.Close()
+	var hdr [4]byte
+	for {
+		if _, err := io.ReadFull(w.srv, hdr[:]); err != nil {
+			return
+		}
+		frame := make([]byte, binary.BigEndian.Uint32(hdr[:]))
+		if _, err := io.ReadFull(w.srv, frame); err != nil || len(frame) < 8 {
+			return
+		}
+		key := int16(binary.BigEndian.Uint16(frame[0:2]))
+		corr := frame[4:8]
+		var body []byte
+		if key == 18 { // ApiVersions v0: error, [key min max]
+			b := &verifW{}
+			b.i16(0)
+			vs := [][3]int16{{3, 0, 1}, {8, 0, 2}, {9, 0, 1}, {10, 0, 0}, {11, 0, 1}, {12, 0, 0}, {13, 0, 0}, {14, 0, 0}, {18, 0, 0}}
+			b.i32(int32(len(vs)))
+			for _, v := range vs {
+				b.i16(v[0])
+				b.i16(v[1])
+				b.i16(v[2])
+			}
+			body = b.b
+		} else {
+			ch, ok := w.next[key]
+			if !ok {
+				return
+			}
+			body = <-ch
+			if body == nil {
+				return // dropped connection
+			}
+		}
+		out := &verifW{}
+		out.i32(int32(4 + len(body)))
+		out.b = append(out.b, corr...)
+		out.b = append(out.b, body...)
+		if _, err := w.srv.Write(out.b); err != nil {
+			return
+		}
+	}
+}
+
+func (w *verifWireCoordinator) Close() error {
+	w.verifMockCoordinator.Close()
+	return w.tc.Close()
+}
+
+// code returns the kafka error code a scripted reply carries (err as kafka.Error, or the body code), and whether the
+// reply is a non-kafka failure (dropped connection).
+func verifWireCode(r VerifCoordReply) (code int16, drop bool) {
+	if r.Err != nil {
+		var ke Error
+		if errors.As(r.Err, &ke) {
+			return int16(ke), false
+		}
+		return 0, true
+	}
+	return r.ErrorCode, false
+}
+
+// outcome tells the harness what the real Conn call concluded (journalled next to the coordinator's own decision).
+func (w *verifWireCoordinator) outcome(method string, err error) {
+	if err != nil {
+		var ke Error
+		if !errors.As(err, &ke) {
+			atomic.StoreInt32(&w.dead, 1) // the connection is unusable from now on
+		}
+	}
+	w.h(VerifCoordCall{Conn: w.id, Method: "outcome", Of: method, Outcome: verifGroupErr(err)})
+}
+
+// ask hands the call to the harness; on a dead connection the harness is only told (Dead) and cannot answer.
+func (w *verifWireCoordinator) ask(c VerifCoordCall) VerifCoordReply {
+	if atomic.LoadInt32(&w.dead) != 0 {
+		c.Dead = true
+		w.h(c)
+		return VerifCoordReply{Err: io.ErrClosedPipe}
+	}
+	return w.h(c)
+}
+
+func (w *verifWireCoordinator) send(key int16, r VerifCoordReply, body func(b *verifW, code int16)) {
+	select { // a body queued for a request that never reached the peer (connection already dead) is stale
+	case <-w.next[key]:
+	default:
+	}
+	code, drop := verifWireCode(r)
+	if drop {
+		atomic.StoreInt32(&w.dead, 1)
+		w.next[key] <- nil
+		return
+	}
+	b := &verifW{}
+	body(b, code)
+	w.next[key] <- b.b
+}
+
+func (w *verifWireCoordinator) findCoordinator(req findCoordinatorRequestV0) (findCoordinatorResponseV0, error) {
+	r := w.ask(VerifCoordCall{Conn: w.id, Method: "findCoordinator", GroupID: req.CoordinatorKey})
+	w.send(10, r, func(b *verifW, code int16) { // error_code node_id host port
+		b.i16(code)
+		b.i32(1)
+		b.str(r.Host)
+		b.i32(r.Port)
+	})
+	res, err := w.tc.findCoordinator(req)
+	w.outcome("findCoordinator", err)
+	return res, err
+}
+
+func (w *verifWireCoordinator) joinGroup(req joinGroupRequest) (joinGroupResponse, error) {
+	r := w.ask(verifJoinCall(w.id, req))
+	w.send(11, r, func(b *verifW, code int16) { // v1: error_code generation_id protocol leader member [member_id metadata]
+		b.i16(code)
+		b.i32(r.GenerationID)
+		b.str(r.Protocol)
+		b.str(r.LeaderID)
+		b.str(r.MemberID)
+		b.i32(int32(len(r.Members)))
+		for _, m := range r.Members {
+			b.str(m.ID)
+			md := &verifW{} // consumer protocol subscription: version [topic] user_data
+			md.i16(1)
+			md.i32(int32(len(m.Topics)))
+			for _, t := range m.Topics {
+				md.str(t)
+			}
+			md.bytes(m.UserData)
+			b.bytes(md.b)
+		}
+	})
+	res, err := w.tc.joinGroup(req)
+	w.outcome("joinGroup", err)
+	return res, err
+}
+
+func (w *verifWireCoordinator) syncGroup(req syncGroupRequestV0) (syncGroupResponseV0, error) {
+	r := w.ask(verifSyncCall(w.id, req))
+	w.send(14, r, func(b *verifW, code int16) { // error_code assignment(bytes)
+		b.i16(code)
+		raw := r.RawAssign
+		if raw == nil {
+			a := &verifW{} // consumer protocol assignment: version [topic [partition]] user_data
+			a.i16(1)
+			a.i32(int32(len(r.Assignments)))
+			for t, ps := range r.Assignments {
+				a.str(t)
+				a.i32(int32(len(ps)))
+				for _, p := range ps {
+					a.i32(p)
+				}
+			}
+			a.bytes(nil)
+			raw = a.b
+		}
+		b.bytes(raw)
+	})
+	res, err := w.tc.syncGroup(req)
+	w.outcome("syncGroup", err)
+	return res, err
+}
+
+func (w *verifWireCoordinator) leaveGroup(req leaveGroupRequestV0) (leaveGroupResponseV0, error) {
+	r := w.ask(VerifCoordCall{Conn: w.id, Method: "leaveGroup", GroupID: req.GroupID, MemberID: req.MemberID})
+	w.send(13, r, func(b *verifW, code int16) { b.i16(code) })
+	res, err := w.tc.leaveGroup(req)
+	w.outcome("leaveGroup", err)
+	return res, err
+}
+
+func (w *verifWireCoordinator) heartbeat(req heartbeatRequestV0) (heartbeatResponseV0, error) {
+	r := w.ask(VerifCoordCall{Conn: w.id, Method: "heartbeat", GroupID: req.GroupID, MemberID: req.MemberID, GenerationID: req.GenerationID})
+	w.send(12, r, func(b *verifW, code int16) { b.i16(code) })
+	res, err := w.tc.heartbeat(req)
+	w.outcome("heartbeat", err)
+	return res, err
+}
+
+func (w *verifWireCoordinator) offsetFetch(req offsetFetchRequestV1) (offsetFetchResponseV1, error) {
+	r := w.ask(verifOffsetFetchCall(w.id, req))
+	w.send(9, r, func(b *verifW, code int16) { // [topic [partition offset metadata error_code]]
+		resp := verifGroupOffsetFetchResponse(r.Committed)
+		if code != 0 && len(resp.Responses) == 0 { // an error needs a partition entry to sit in
+			for _, t := range req.Topics {
+				tr := offsetFetchResponseV1Response{Topic: t.Topic}
+				for _, p := range t.Partitions {
+					tr.PartitionResponses = append(tr.PartitionResponses, offsetFetchResponseV1PartitionResponse{Partition: p, Offset: -1})
+				}
+				resp.Responses = append(resp.Responses, tr)
+			}
+		}
+		if code != 0 { // nothing was requested: still give the error a partition entry to sit in
+			n := 0
+			for _, t := range resp.Responses {
+				n += len(t.PartitionResponses)
+			}
+			if n == 0 {
+				resp.Responses = append(resp.Responses, offsetFetchResponseV1Response{Topic: "?",
+					PartitionResponses: []offsetFetchResponseV1PartitionResponse{{Partition: 0, Offset: -1}}})
+			}
+		}
+		b.i32(int32(len(resp.Responses)))
+		for ti, t := range resp.Responses {
+			b.str(t.Topic)
+			b.i32(int32(len(t.PartitionResponses)))
+			for pi, p := range t.PartitionResponses {
+				b.i32(p.Partition)
+				b.i64(p.Offset)
+				b.str("")
+				last := ti == len(resp.Responses)-1 && pi == len(t.PartitionResponses)-1
+				if code != 0 && (!r.ErrLast || last) {
+					b.i16(code)
+				} else {
+					b.i16(0)
+				}
+			}
+		}
+	})
+	res, err := w.tc.offsetFetch(req)
+	w.outcome("offsetFetch", err)
+	return res, err
+}
+
+func (w *verifWireCoordinator) offsetCommit(req offsetCommitRequestV2) (offsetCommitResponseV2, error) {
+	r := w.ask(verifOffsetCommitCall(w.id, req))
+	w.send(8, r, func(b *verifW, code int16) { // [topic [partition error_code]]
+		b.i32(int32(len(req.Topics)))
+		for ti, t := range req.Topics {
+			b.str(t.Topic)
+			b.i32(int32(len(t.Partitions)))
+			for pi, p := range t.Partitions {
+				b.i32(p.Partition)
+				last := ti == len(req.Topics)-1 && pi == len(t.Partitions)-1
+				if code != 0 && (!r.ErrLast || last) {
+					b.i16(code)
+				} else {
+					b.i16(0)
+				}
+			}
+		}
+	})
+	res, err := w.tc.offsetCommit(req)
+	w.outcome("offsetCommit", err)
+	return res, err
+}
